@@ -65,6 +65,11 @@ type rig struct {
 	holdCap int32
 	capHeld chan chan struct{}
 	capw    map[[2]int]*capWaiter
+	// the loop pre-empted inside its critical section (LoopPollHold / LoopWakeHold): parked inside holder.Has()
+	holdHas    int32
+	hasHeld    chan struct{}
+	hasRelease chan struct{}
+	crit       bool
 }
 
 type capWaiter struct {
@@ -77,6 +82,16 @@ type capWaiter struct {
 type gateHolder struct {
 	pushpull.Holder
 	r *rig
+}
+
+// Has is asked by the tracker loop inside its critical section (and by announcers, which pass through: the gate is
+// armed only for the loop's next call).  The holder's own answer is computed AFTER the gate, i.e. at resume time.
+func (g *gateHolder) Has(hash common.Hash128) bool {
+	if atomic.CompareAndSwapInt32(&g.r.holdHas, 1, 0) {
+		g.r.hasHeld <- struct{}{}
+		<-g.r.hasRelease
+	}
+	return g.Holder.Has(hash)
 }
 
 func (g *gateHolder) MaxParallelPulls() uint32 {
@@ -129,12 +144,14 @@ func newRig(delayTicks int, hashes int) *rig {
 	verifclock.Set(clk)
 	r := &rig{clk: clk, goTop: make(chan struct{}), loopEv: make(chan string, 16), hashes: hashes, seen: map[int]bool{},
 		held: make(chan struct{}, 1), release: make(chan struct{}), annDone: make(chan struct{}, 1),
-		capHeld: make(chan chan struct{}, 1), capw: map[[2]int]*capWaiter{}}
+		capHeld: make(chan chan struct{}, 1), capw: map[[2]int]*capWaiter{}, hasHeld: make(chan struct{}, 1), hasRelease: make(chan struct{})}
 	r.trk = pushpull.NewDefaultPushTracker(time.Duration(delayTicks) * time.Second)
 	current.Store(r)
 	r.holder = pushpull.NewDefaultHolder(3, r.trk) // starts the loop and gc goroutines
 	r.mgr = protocol.NewPushPullManager()
-	r.mgr.VerifAddEntryHolder(pushTx, &gateHolder{Holder: r.holder, r: r})
+	gate := &gateHolder{Holder: r.holder, r: r}
+	r.trk.SetHolder(gate) // the tracker asks the holder through the gate too (NewDefaultHolder registered the bare holder)
+	r.mgr.VerifAddEntryHolder(pushTx, gate)
 	r.mgr.Run()
 	r.waitLoop() // loop reaches its first LoopTop
 	return r
@@ -145,6 +162,8 @@ func newRig(delayTicks int, hashes int) *rig {
 func (r *rig) waitLoop() string {
 	for {
 		select {
+		case <-r.hasHeld:
+			return "crit"
 		case <-r.loopEv:
 			return "top"
 		case s := <-r.clk.Parked:
@@ -195,6 +214,10 @@ func (r *rig) observe(ev step, effective string) tr.M {
 	obj := [3]int64{-1, -1, -1}
 	if r.sleeper != nil {
 		pc = "sleep"
+		obj = r.obj
+	}
+	if r.crit {
+		pc = "crit"
 		obj = r.obj
 	}
 	late := [][2]int{}
@@ -286,26 +309,61 @@ func (r *rig) do(s step, delay int64) tr.M {
 		r.holder.Add(hsh(s.H), "entry", common.MultiShard, false)
 	case "Tick":
 		r.clk.Advance(1)
-	case "LoopPoll":
-		if r.sleeper != nil || r.dead {
+	case "LoopPoll", "LoopPollHold":
+		if r.sleeper != nil || r.dead || r.crit {
 			eff = "Skip"
 			break
 		}
+		if s.Ev == "LoopPollHold" {
+			atomic.StoreInt32(&r.holdHas, 1)
+		}
+		// the entry the loop is going to look at (for the observation of a step that ends inside the critical section)
+		head, _ := r.trk.VerifSnapshot()
 		r.goTop <- struct{}{}
-		if r.waitLoop() == "sleep" {
+		switch r.waitLoop() {
+		case "sleep":
 			// the loop peeked an entry that is not due yet
 			r.obj = [3]int64{int64(r.peeked[0]), int64(r.peeked[1]), r.clk.ToTicks(r.sleeper.Wake) - delay}
+		case "crit":
+			r.crit = true
+			if len(head) > 0 {
+				r.obj = [3]int64{int64(unpid(head[0].Id)), int64(head[0].Hash[0]), r.clk.ToTicks(head[0].Time)}
+			}
 		}
-	case "LoopWake":
+		if s.Ev == "LoopPollHold" && !r.crit {
+			atomic.StoreInt32(&r.holdHas, 0) // the iteration never reached the holder (empty list, entry not due)
+			eff = "LoopPoll"
+		}
+	case "LoopCrit":
+		if !r.crit {
+			eff = "Skip"
+			break
+		}
+		r.crit = false
+		r.hasRelease <- struct{}{}
+		if r.waitLoop() == "sleep" {
+			r.obj = [3]int64{int64(r.peeked[0]), int64(r.peeked[1]), r.clk.ToTicks(r.sleeper.Wake) - delay}
+		}
+	case "LoopWake", "LoopWakeHold":
 		if r.sleeper == nil || r.dead || r.clk.Now().Before(r.sleeper.Wake) {
 			eff = "Skip"
 			break
 		}
+		if s.Ev == "LoopWakeHold" {
+			atomic.StoreInt32(&r.holdHas, 1)
+		}
 		sl := r.sleeper
 		r.sleeper = nil
 		r.clk.Release(sl)
-		if r.waitLoop() == "sleep" {
+		switch r.waitLoop() {
+		case "sleep":
 			r.obj = [3]int64{int64(r.peeked[0]), int64(r.peeked[1]), r.clk.ToTicks(r.sleeper.Wake) - delay}
+		case "crit":
+			r.crit = true // r.obj is still the entry the loop slept on
+		}
+		if s.Ev == "LoopWakeHold" && !r.crit {
+			atomic.StoreInt32(&r.holdHas, 0) // the head had changed: the loop started over without asking the holder
+			eff = "LoopWake"
 		}
 	default:
 		panic("unknown step " + s.Ev)
@@ -346,6 +404,11 @@ func main() {
 		for _, cw := range r.capw {
 			close(cw.release)
 			<-cw.done
+		}
+		if r.crit {
+			r.crit = false
+			r.hasRelease <- struct{}{}
+			r.waitLoop()
 		}
 		n++
 	})
